@@ -46,6 +46,9 @@ func (s *session) judgeRPC(phase string, c *client, full, kind string, o rpcOutc
 	s.probes++
 	s.eval()
 	s.distinct(cfg.String(), "grpc", full, kind, cs.Name, phase)
+	if s.probes%397 == 1 {
+		s.r.Sample(map[string]any{"configuration": cfg.String(), "protocol": "grpc", "method": full, "request": kind, "credential": cs.Name, "phase": phase, "code": o.Code.String()})
+	}
 	s.note("gRPC %s [%s] cred=%s phase=%s -> %s", full, kind, cs.Name, phase, o)
 	cnt := func(outcome string) { s.count(fmt.Sprintf("grpc.%s.%s.%s", cfg.authName(), credClass(cs), outcome)) }
 	tuple := fmt.Sprintf("grpc|%s|%s|%s", full, kind, cs.Name)
